@@ -11,12 +11,14 @@ type case = {
 }
 
 let id = "C13"
-let rule = "every command of the regenerated table x its valid argument shapes (1..3 key groups, 0..2 trailing options where the row allows, \
+let rule = "every command of Redis's key-specification table (Spec/RedisKeySpecs; the regenerated table of the tool is proved equal to it) x its valid argument shapes (1..3 key groups, 0..2 trailing options where the row allows, \
 leading sub-command where firstkey>1) x ALL pass/reject assignments of the keys x whitelist/blacklist phrasing, plus unknown commands and no-filter \
 configurations; companions/options are chosen so that they WOULD be rejected if examined as keys; non-trivial = >=2 keys with mixed verdicts; distinct by wire line"
 
+(* the cases and the oracle follow REDIS's key specification (Spec/RedisKeySpecs, extracted), not the table regenerated from
+   redis_command.go: a row of the tool's table that names other arguments as keys shows up as a wrong forwarded command *)
 let table : (string * (int * int * int)) list =
-  List.map (fun (n, ((f, l), s)) -> (string_of_bytes n, (int_of_z f, int_of_z l, int_of_z s))) Model.cmd_table
+  List.map (fun (n, ((f, l), s)) -> (string_of_bytes n, (int_of_z f, int_of_z l, int_of_z s))) Model.redis_key_specs
 
 let rec assignments n = if n = 0 then [ [] ] else List.concat_map (fun a -> [ true :: a; false :: a ]) (assignments (n - 1))
 
